@@ -20,10 +20,25 @@ Layers.  ABI level (`…Fields`): per scheme "equal signing bytes ⇒ every fiel
 two documented defaults) ⇒ equal delivered argument list".  Go level (`GoItem`): one theorem over
 all action types and batches on the real entry points `goSignBytes` / `goBatchCheckpoint`,
 including their `panic` / `none` branches.  Ids: statements about the ids RETURNED along arbitrary
-histories (`freshIds`, `idTrace`), with the state fields tied to the history.
+histories (`freshIds`, `idTrace`), with the state fields tied to the history; `jqStep` (ids and stored
+messages together) ties the `id` field that is hashed to the id `Put` returned
+(`queued_messages_never_share_signing_bytes`).
+
+The estimate default.  `estimate = 0` is signed as 300000 and nothing stops validators from signing before an
+estimate is elected, so "the signing bytes depend on the elected gas estimate" is FALSE for items that are
+signable but not elected (`elected_estimate_clause_false_before_election`, a finding).  The delivered-call
+theorems therefore carry the hypothesis `itemElected` (a statement about the item's `estimate` field), which
+is DISCHARGED from the executable queue model for everything /repo offers to relayers
+(`offered_message_is_elected`, `relayed_messages_digest_binds_delivered`; imports `Props/C14.lean`).
+
+NOT MODELLED: the other implementers of `Keccak256WithSignedMessage` — `ValidatorBalancesAttestation`,
+`ReferenceBlockAttestation` (string hashes of Paloma-internal attestation requests, enqueued with
+`RequireSignatures: false`, nothing is delivered to a remote contract), consensus `Batch` (returns nil) and
+the test-only `SimpleMessage`.
 -/
 import PalomaModel.Model.SignBytes
 import PalomaModel.Props.Abi
+import PalomaModel.Props.C14
 
 namespace Paloma.SignBytes
 open Paloma.Abi
@@ -640,6 +655,105 @@ theorem goCheckpointPre_some_kind (a : GoItem) (q : Bytes) (h : goCheckpointPre 
     cases act <;> simp [goCheckpointPre] at h
     rfl
 
+/-! ### ids and messages together (`jqStep`) -/
+
+/-- the id part of `jqStep` IS `idStep` on the id part of the state, result included -/
+theorem jqStep_ids (s : JqSt) (op : JqOp) :
+    (jqStep s op).1.ids = (idStep s.ids op.toId).1 ∧ (jqStep s op).2 = (idStep s.ids op.toId).2 := by
+  cases op with
+  | put q m r =>
+    simp only [jqStep, JqOp.toId]
+    cases hres : (idStep s.ids (.put q r)).2 with
+    | ok id => by_cases hr : r = 0 <;> simp [hr]
+    | notFound => simp
+    | zeroId => simp
+  | remove q id =>
+    simp only [jqStep, JqOp.toId]
+    cases hres : (idStep s.ids (.remove q id)).2 with
+    | ok id' =>
+      simp only [true_and]
+      simp only [idStep] at hres
+      split at hres
+      · simpa using hres
+      · simp at hres
+    | notFound => simp
+    | zeroId => simp
+
+theorem jqRun_ids : ∀ (ops : List JqOp) (s : JqSt), (jqRun s ops).ids = idRun s.ids (ops.map JqOp.toId)
+  | [], _ => rfl
+  | op :: ops, s => by
+    simp only [jqRun, List.map_cons, idRun]
+    rw [jqRun_ids ops, (jqStep_ids s op).1]
+
+/-- the keys (queue, id) of the stored messages are exactly the live ids of the id counter model, in order -/
+def JqKeys (s : JqSt) : Prop := s.msgs.map (fun p => (p.1, p.2.id)) = s.ids.live
+
+theorem jqStep_keys (s : JqSt) (op : JqOp) (h : JqKeys s) : JqKeys (jqStep s op).1 := by
+  unfold JqKeys at h ⊢
+  cases op with
+  | put q m r =>
+    by_cases hr : r = 0
+    · subst hr
+      simp only [jqStep, idStep, ne_eq, not_true_eq_false, ↓reduceIte]
+      by_cases hz : (s.ids.counter + 1) % U64 = 0
+      · simp [hz, h]
+      · simp [hz, h]
+    · simp only [jqStep, idStep, ne_eq, hr, not_false_eq_true, ↓reduceIte]
+      by_cases hm : hasMsg s.ids q r = true
+      · simp only [hm, ↓reduceIte]
+        rw [← h, List.map_map]
+        apply List.map_congr_left
+        intro p _
+        by_cases hp : (p.1 == q && p.2.id == r) = true
+        · simp only [Function.comp, hp, ↓reduceIte]
+          simp only [Bool.and_eq_true, beq_iff_eq] at hp
+          rw [hp.1, hp.2]
+        · simp [Function.comp, hp]
+      · simp [hm, h]
+  | remove q id =>
+    simp only [jqStep, idStep]
+    by_cases hm : hasMsg s.ids q id = true
+    · simp only [hm, ↓reduceIte]
+      rw [← h, List.filter_map]
+      rfl
+    · simp [hm, h]
+
+theorem jqRun_keys : ∀ (ops : List JqOp) (s : JqSt), JqKeys s → JqKeys (jqRun s ops)
+  | [], _, h => h
+  | op :: ops, s, h => jqRun_keys ops _ (jqStep_keys s op h)
+
+theorem jqRun_append (a : List JqOp) : ∀ (s : JqSt) (b : List JqOp), jqRun s (a ++ b) = jqRun (jqRun s a) b := by
+  induction a with
+  | nil => intro s b; rfl
+  | cons x a ih => intro s b; simp only [List.cons_append, jqRun]; exact ih _ b
+
+theorem nodup_map_getElem?_inj {α β} (f : α → β) : ∀ (l : List α), (l.map f).Nodup →
+    ∀ (i j : Nat) (a b : α), l[i]? = some a → l[j]? = some b → f a = f b → i = j
+  | [], _, i, _, a, _, hi, _, _ => by simp at hi
+  | x :: xs, hn, i, j, a, b, hi, hj, hab => by
+    simp only [List.map_cons, List.nodup_cons] at hn
+    cases i with
+    | zero =>
+      cases j with
+      | zero => rfl
+      | succ j =>
+        exfalso
+        simp only [List.getElem?_cons_zero, Option.some.injEq] at hi
+        simp only [List.getElem?_cons_succ] at hj
+        subst hi
+        exact hn.1 (hab ▸ List.mem_map_of_mem (List.mem_of_getElem? hj))
+    | succ i =>
+      cases j with
+      | zero =>
+        exfalso
+        simp only [List.getElem?_cons_zero, Option.some.injEq] at hj
+        simp only [List.getElem?_cons_succ] at hi
+        subst hj
+        exact hn.1 (hab ▸ List.mem_map_of_mem (List.mem_of_getElem? hi))
+      | succ j =>
+        simp only [List.getElem?_cons_succ] at hi hj
+        rw [nodup_map_getElem?_inj f xs hn.2 i j a b hi hj hab]
+
 end Lemmas
 
 /-! ## Property theorems (C05) -/
@@ -668,7 +782,7 @@ theorem uv_mustBind_covered (H : Hash) (f g : UVFields) (hf : UV.wf f = true) (h
 equal signed tuples force equal delivered tuples (the valset is inside the checkpoint hash, hence
 the collision hypothesis) provided both messages carry an elected estimate; see
 `estimate_default_collision` / `uv_estimate_default_not_delivered` for why the proviso is needed
-and `offered_estimate_elected` for why every delivered message satisfies it. -/
+and `offered_message_is_elected` (queue model) for why every message offered to relayers satisfies it. -/
 theorem uv_delivered_determined_by_signed (H : Hash) (f g : UVFields)
     (hf : UV.wf f = true) (hg : UV.wf g = true)
     (hin : NoColl H (UV.checkpointPre f) (UV.checkpointPre g))
@@ -814,7 +928,8 @@ theorem uv_lists_bound (f g : UVFields) (h : UV.mustBind f = UV.mustBind g) :
 
 /-- **batch_delivered_determined_by_signed.** Equal signed tuples of two batches force equal
 `submit_batch` argument lists, provided both carry an elected estimate (see
-`batch_estimate_default_collision`; discharged for offered batches by `offered_estimate_elected`). -/
+`estimate_default_batch_collision`; the skyway `OutgoingTxBatches` query lists only batches with a non-zero
+estimate: `relay_filters_need_elected_estimate`). -/
 theorem batch_delivered_determined_by_signed (f g : BatchFields)
     (hef : f.estimate ≠ 0) (heg : g.estimate ≠ 0)
     (h : Batch.signedVals f = Batch.signedVals g) : Batch.deliveredVals f = Batch.deliveredVals g := by
@@ -960,8 +1075,9 @@ theorem delivered_of_norm :
 `signBytes f = signBytes g → deliveredVals f = deliveredVals g` — collected signatures authorise
 exactly one delivered argument list.  ASSUMPTIONS: `NoColl` at the pre-images involved (keccak);
 for the three schemes whose call carries a gas estimate, that it is elected on both sides
-(`offered_estimate_elected`: relayers are offered nothing else; `estimate_default_collision` and
-`uv_estimate_default_not_delivered` show the proviso cannot be dropped). -/
+(`offered_message_is_elected`: relayers are offered nothing else; `estimate_default_collision`,
+`uv_estimate_default_not_delivered` and `elected_estimate_clause_false_before_election` show the proviso
+cannot be dropped — signatures exist before the election). -/
 theorem signBytes_binds_delivered (H : Hash) :
     (∀ f g : UVFields, UV.wf f = true → UV.wf g = true →
         NoColl H (UV.preimage H f) (UV.preimage H g) → NoColl H (UV.checkpointPre f) (UV.checkpointPre g) →
@@ -1153,8 +1269,9 @@ theorem uv_estimate_default_not_delivered (f : UVFields) :
 /-- **estimate_default_collisions_all.** The same deliberate collision in the other two schemes
 that carry an estimate (`compass_update_batch`, `batch_call`): 0 and 300000 sign identically, and
 the delivered argument lists differ.  Together with `signBytes_binds_all_fields` (everything is
-bound up to `norm`) these are the ONLY identifications; `offered_estimate_elected` shows none of
-them reaches a delivered call. -/
+bound up to `norm`) these are the ONLY identifications.  They are NOT harmless: validators sign before the
+election (`elected_estimate_clause_false_before_election`); what /repo offers to relayers is elected
+(`offered_message_is_elected`). -/
 theorem estimate_default_collisions_all (c : CHFields) (b : BatchFields) :
     CH.signedVals { c with estimate := 0 } = CH.signedVals { c with estimate := 300000 } ∧
     CH.deliveredVals { c with estimate := 0 } ≠ CH.deliveredVals { c with estimate := 300000 } ∧
@@ -1347,7 +1464,7 @@ theorem view_uv (a : GoItem) (hk : a.kind = .uv) :
       goCheckpointPre a = some (UV.checkpointPre f) ∧
       goItemBound a = some (UV.mustBind f) ∧
       goItemDelivered a = some (.call .uv (UV.deliveredVals f)) ∧
-      (itemOffered a = true → f.estimate ≠ 0) := by
+      (itemElected a = true → f.estimate ≠ 0) := by
   cases a with
   | batch ts b => simp [GoItem.kind] at hk
   | msg m ctor =>
@@ -1360,10 +1477,9 @@ theorem view_uv (a : GoItem) (hk : a.kind = .uv) :
         simp only [goItemWf, Bool.and_eq_true, decide_eq_true_eq, List.all_eq_true] at hw
         exact go_uv_wf _ vs hr hw.2.1.1.1 hw.2.1.1.2 hw.2.1.2 hw.2.2
       · intro ho
-        simp only [itemOffered, hasGasEstimate, Bool.not_true, Bool.false_eq_true, ↓reduceIte,
-          decide_eq_true_eq] at ho
+        simp only [itemElected, decide_eq_true_eq] at ho
         simp only [uvFields]
-        omega
+        exact ho
     | _ => simp [GoItem.kind, GoAction.kind] at hk
 
 /-- **view_slc.** -/
@@ -1389,7 +1505,7 @@ theorem view_slc (a : GoItem) (hk : a.kind = .slc) :
         intro hw
         have hr := goWf_msg hw
         simp only [goItemWf, Bool.and_eq_true, decide_eq_true_eq] at hw
-        exact go_slc_wf _ c p s fe d snd hr hw.2.1 hs hw.2.2
+        exact go_slc_wf _ c p s fe d snd hr hw.2.1.1 hs hw.2.1.2
     | _ => simp [GoItem.kind, GoAction.kind] at hk
 
 /-- **view_usc.** -/
@@ -1415,7 +1531,7 @@ theorem view_usc (a : GoItem) (hk : a.kind = .usc) :
         intro hw
         have hr := goWf_msg hw
         simp only [goItemWf, Bool.and_eq_true, decide_eq_true_eq] at hw
-        exact go_usc_wf _ dep bc s fe d snd hr hw.2.1 hs hw.2.2
+        exact go_usc_wf _ dep bc s fe d snd hr hw.2.1.1 hs hw.2.1.2
     | _ => simp [GoItem.kind, GoAction.kind] at hk
 
 /-- **view_ch.** -/
@@ -1424,7 +1540,7 @@ theorem view_ch (a : GoItem) (hk : a.kind = .ch) :
       (∀ H, goItemPreimage H a = some (CH.preimage f)) ∧
       goItemBound a = some (CH.mustBind f) ∧
       goItemDelivered a = some (.call .ch (CH.deliveredVals f)) ∧
-      (itemOffered a = true → f.estimate ≠ 0) := by
+      (itemElected a = true → f.estimate ≠ 0) := by
   cases a with
   | batch ts b => simp [GoItem.kind] at hk
   | msg m ctor =>
@@ -1435,12 +1551,11 @@ theorem view_ch (a : GoItem) (hk : a.kind = .ch) :
       · intro hw
         have hr := goWf_msg hw
         simp only [goItemWf, Bool.and_eq_true, decide_eq_true_eq, List.all_eq_true] at hw
-        exact go_ch_wf _ cs d hr hw.2.1 hw.2.2
+        exact go_ch_wf _ cs d hr hw.2.1.1 hw.2.1.2
       · intro ho
-        simp only [itemOffered, hasGasEstimate, Bool.not_true, Bool.false_eq_true, ↓reduceIte,
-          decide_eq_true_eq] at ho
+        simp only [itemElected, decide_eq_true_eq] at ho
         simp only [chFields]
-        omega
+        exact ho
     | _ => simp [GoItem.kind, GoAction.kind] at hk
 
 /-- **view_up.** -/
@@ -1472,7 +1587,7 @@ theorem view_batch (a : GoItem) (hk : a.kind = .batch) :
       (∀ H, goItemPreimage H a = some (Batch.preimage f)) ∧
       goItemBound a = some (Batch.mustBind f) ∧
       goItemDelivered a = some (.call .batch (Batch.deliveredVals f)) ∧
-      (itemOffered a = true → f.estimate ≠ 0) := by
+      (itemElected a = true → f.estimate ≠ 0) := by
   cases a with
   | msg m ctor =>
     obtain ⟨ts, rel, id, est, act⟩ := m
@@ -1488,10 +1603,9 @@ theorem view_batch (a : GoItem) (hk : a.kind = .batch) :
         simp only [goItemWf, Bool.and_eq_true, decide_eq_true_eq, List.all_eq_true] at hw
         exact go_batch_wf ts b hw.1.1.1.1.1 hw.1.1.1.1.2 hw.1.1.1.2 hw.1.1.2 hw.1.2 hw.2
       · intro ho
-        simp only [itemOffered, batchOffered, Bool.not_eq_eq_eq_not, Bool.not_true,
-          decide_eq_false_iff_not] at ho
+        simp only [itemElected, decide_eq_true_eq] at ho
         simp only [batchFields]
-        omega
+        exact ho
 
 /-! #### kinds are told apart by the method id (given `upSafe`) -/
 
@@ -1639,11 +1753,11 @@ theorem go_digest_binds (H : Hash) (a b : GoItem) (d : Nat)
 
 /-- **go_bound_determines_delivered.** Hash-free half: two items of the same kind (not a compass
 deployment) with the same bound values are handed to the remote contract with the same argument
-list, provided each was offered to relayers (`itemOffered`: the estimate of an `UpdateValset`,
-`CompassHandover` or batch has been elected — the relay filters of /repo offer nothing else). -/
+list, provided each carries an elected estimate (`itemElected`: the estimate of an `UpdateValset`,
+`CompassHandover` or batch is non-zero; see `offered_message_is_elected` for when that holds). -/
 theorem go_bound_determines_delivered (a b : GoItem) (hk : a.kind = b.kind) (hup : a.kind ≠ .up)
     (hbd : goItemBound a = goItemBound b) (hs : goItemBound a ≠ none)
-    (hoa : itemOffered a = true) (hob : itemOffered b = true) :
+    (hoa : itemElected a = true) (hob : itemElected b = true) :
     goItemDelivered a = goItemDelivered b ∧ goItemDelivered a ≠ none := by
   obtain ⟨d1, d2, d3, d4, d5⟩ := delivered_of_norm
   cases hka : a.kind with
@@ -1685,19 +1799,78 @@ theorem go_bound_determines_delivered (a b : GoItem) (hk : a.kind = b.kind) (hup
     rw [hdf, hdg, d5 f g ((batch_mustBind_eq_iff f g).1 (Option.some.inj hbd)) (hof hoa) (hog hob)]
     exact ⟨rfl, by simp⟩
 
+/-- **go_bound_determines_go_deadline.** The Go-level deadline itself (an `int64`, part of `goItemWf`) is bound,
+not only its 256-bit word: two items of the same kind with the same bound values carry the same `int64`
+deadline.  (Without the `int64` range `d` and `d + 2^256` would have the same word; the range is what the
+protobuf type guarantees.) -/
+theorem go_bound_determines_go_deadline (a b : GoItem) (hwa : goItemWf a = true) (hwb : goItemWf b = true)
+    (hk : a.kind = b.kind) (hbd : goItemBound a = goItemBound b) (hs : goItemBound a ≠ none) :
+    goDeadline a = goDeadline b := by
+  have rng : ∀ d : Int, int64Ok d = true → -(I63 : Int) ≤ d ∧ d < (I63 : Int) := by
+    intro d h
+    simpa [int64Ok] using h
+  cases a with
+  | batch ts ba =>
+    cases b with
+    | batch _ _ => rfl
+    | msg m c =>
+      obtain ⟨ts', rel', id', est', act'⟩ := m
+      cases act' <;> simp [GoItem.kind, GoAction.kind] at hk
+  | msg m c =>
+    cases b with
+    | batch _ _ =>
+      obtain ⟨ts, rel, id, est, act⟩ := m
+      cases act <;> simp [GoItem.kind, GoAction.kind] at hk
+    | msg m' c' =>
+      obtain ⟨ts, rel, id, est, act⟩ := m
+      obtain ⟨ts', rel', id', est', act'⟩ := m'
+      cases act <;> cases act' <;> simp [GoItem.kind, GoAction.kind] at hk
+      · rfl
+      · rename_i c1 p1 fe1 s1 d1 c2 p2 fe2 s2 d2
+        simp only [goItemWf, Bool.and_eq_true] at hwa hwb
+        simp only [goItemBound] at hbd hs
+        cases h1 : padSender s1 <;> cases h2 : padSender s2 <;> simp only [h1, h2] at hbd hs
+        · exact absurd rfl hs
+        · exact absurd rfl hs
+        · cases hbd
+        · simp only [SLC.mustBind, slcFields, Option.some.injEq, List.cons.injEq, V.word.injEq] at hbd
+          simp only [goDeadline, Option.some.injEq]
+          exact wordOfInt_inj (rng _ hwa.2.2) (rng _ hwb.2.2) hbd.2.2.2.2.2.2.2.2.1
+      · rfl
+      · rename_i c1 p1 fe1 s1 d1 c2 p2 fe2 s2 d2
+        simp only [goItemWf, Bool.and_eq_true] at hwa hwb
+        simp only [goItemBound] at hbd hs
+        cases h1 : padSender s1 <;> cases h2 : padSender s2 <;> simp only [h1, h2] at hbd hs
+        · exact absurd rfl hs
+        · exact absurd rfl hs
+        · cases hbd
+        · simp only [USC.mustBind, uscFields, Option.some.injEq, List.cons.injEq, V.word.injEq] at hbd
+          simp only [goDeadline, Option.some.injEq]
+          exact wordOfInt_inj (rng _ hwa.2.2) (rng _ hwb.2.2) hbd.2.2.2.2.2.2.2.2.1
+      · rename_i cs1 d1 cs2 d2
+        simp only [goItemWf, Bool.and_eq_true] at hwa hwb
+        simp only [goItemBound, CH.mustBind, chFields, Option.some.injEq, List.cons.injEq, V.word.injEq] at hbd
+        simp only [goDeadline, Option.some.injEq]
+        exact wordOfInt_inj (rng _ hwa.2.2) (rng _ hwb.2.2) hbd.2.1
+
 /-- **go_digest_binds_delivered_partial.** The property's main clause at the Go entry points:
 collected signatures (one digest `d`) authorise exactly ONE delivered call — same compass method,
 same argument list — for every kind except a compass deployment.  `_partial` because
-(1) the side condition `upSafe` is needed (`cross_action_clause_false_for_up`) and
+(1) the side condition `upSafe` is needed (`cross_action_clause_false_for_up`),
 (2) for `UploadSmartContract` the delivered creation data is NOT determined
-(`up_delivered_not_bound`); what is determined there is stated in `up_digest_binds_bytecode`. -/
+(`up_delivered_not_bound`); what is determined there is stated in `up_digest_binds_bytecode`, and
+(3) both items must carry an ELECTED estimate (`itemElected`: `estimate ≠ 0` for `UpdateValset` /
+`CompassHandover` / batch) — without it the clause is false
+(`elected_estimate_clause_false_before_election`).  (3) is discharged from the queue model for everything the
+producers of /repo get offered to relayers: `offered_message_is_elected`,
+`relayed_messages_digest_binds_delivered`. -/
 theorem go_digest_binds_delivered_partial (H : Hash) (a b : GoItem) (d : Nat)
     (hwa : goItemWf a = true) (hwb : goItemWf b = true)
     (hsa : upSafe a = true) (hsb : upSafe b = true)
     (ha : goItemDigest H a = some d) (hb : goItemDigest H b = some d)
     (hout : ∀ p q, goItemPreimage H a = some p → goItemPreimage H b = some q → NoColl H p q)
     (hin : ∀ p q, goCheckpointPre a = some p → goCheckpointPre b = some q → NoColl H p q)
-    (hoa : itemOffered a = true) (hob : itemOffered b = true) (hup : a.kind ≠ .up) :
+    (hoa : itemElected a = true) (hob : itemElected b = true) (hup : a.kind ≠ .up) :
     goItemDelivered a = goItemDelivered b ∧ goItemDelivered a ≠ none := by
   obtain ⟨hk, hbd, hs⟩ := go_digest_binds H a b d hwa hwb hsa hsb ha hb hout hin
   exact go_bound_determines_delivered a b hk hup hbd hs hoa hob
@@ -1705,7 +1878,7 @@ theorem go_digest_binds_delivered_partial (H : Hash) (a b : GoItem) (d : Nat)
 /-- **goSignBytes_binds.** The same, spelled out on `Message.Keccak256WithSignedMessage` itself:
 two turnstone messages for which it returns the same hash `d` (neither panics) have the same
 action type, the same bound values, and — unless they are compass deployments — the same
-delivered call once offered to relayers. -/
+delivered call once both carry an elected estimate (`itemElected`). -/
 theorem goSignBytes_binds (H : Hash) (m m' : GoMsg) (c c' : Bytes) (d : Nat)
     (hwa : goItemWf (.msg m c) = true) (hwb : goItemWf (.msg m' c') = true)
     (hsa : upSafe (.msg m c) = true) (hsb : upSafe (.msg m' c') = true)
@@ -1714,7 +1887,7 @@ theorem goSignBytes_binds (H : Hash) (m m' : GoMsg) (c c' : Bytes) (d : Nat)
     (hin : ∀ p q, goCheckpointPre (.msg m c) = some p → goCheckpointPre (.msg m' c') = some q →
       NoColl H p q) :
     m.action.kind = m'.action.kind ∧ goItemBound (.msg m c) = goItemBound (.msg m' c') ∧
-    (m.action.kind ≠ .up → itemOffered (.msg m c) = true → itemOffered (.msg m' c') = true →
+    (m.action.kind ≠ .up → itemElected (.msg m c) = true → itemElected (.msg m' c') = true →
       goItemDelivered (.msg m c) = goItemDelivered (.msg m' c') ∧ goItemDelivered (.msg m c) ≠ none) := by
   have ha' := ((goSignBytes_eq_itemDigest H m c).1 d).1 ha
   have hb' := ((goSignBytes_eq_itemDigest H m' c').1 d).1 hb
@@ -1863,12 +2036,12 @@ theorem cross_action_clause_false_for_up :
   rw [hkb] at hk
   exact absurd hk (by decide)
 
-/-- **go_digest_binds_message_id.** Link between the id counter and the signing bytes: for the
-three kinds whose scheme contains the message id (`logic_call`, `deploy_contract`, compass
-deployment) equal signing bytes force equal queue ids.  The id inside the signed record is
-`castI64 m.id` where `m.id` is `QueuedSignedMessage.Id`, the value `Put` returned; by
-`later_fresh_id_larger` two different `Put`s never return the same id, so two different queued
-messages of these kinds never share their signing bytes (ASSUMPTION: `NoColl` at the pre-images). -/
+/-- **go_digest_binds_message_id.** For the three kinds whose scheme contains the message id
+(`logic_call`, `deploy_contract`, compass deployment) equal signing bytes force equal `id` fields of the two
+`GoMsg`s (ASSUMPTION: `NoColl` at the pre-images).  The `id` field is `QueuedSignedMessage.Id`; that it is the
+value `Put` returned, and hence that two different queued messages of these kinds never share their signing
+bytes, is `stored_message_id_is_a_returned_id` / `queued_messages_never_share_signing_bytes` on the joint
+model of `Put` (ids and stored messages together). -/
 theorem go_digest_binds_message_id (H : Hash) (m m' : GoMsg) (c c' : Bytes) (d : Nat)
     (hwa : goItemWf (.msg m c) = true) (hwb : goItemWf (.msg m' c') = true)
     (hsa : upSafe (.msg m c) = true) (hsb : upSafe (.msg m' c') = true)
@@ -1906,27 +2079,197 @@ theorem go_digest_binds_message_id (H : Hash) (m m' : GoMsg) (c c' : Bytes) (d :
     · simp only [USC.mustBind, uscFields, Option.some.injEq, List.cons.injEq, V.word.injEq] at hbd
       exact castI64_inj hia hib hbd.2.2.2.2.2.2.1
 
-/-- **offered_estimate_elected.** Discharges the `estimate ≠ 0` proviso for everything that is
-delivered: `filters.HasGasEstimate` (a conjunct of `GetMessagesForRelaying`) lets a message that
-requires gas estimation through only with an elected estimate, the skyway `OutgoingTxBatches`
-query skips batches without one; and for an elected estimate the signed value IS the stored value
-(`effEstimate est = est`), so the 0 ≡ 300000 signing default never reaches a delivered call. -/
-theorem offered_estimate_elected :
-    (∀ est, hasGasEstimate true est = true ↔ est ≠ 0) ∧
+/-- **relay_filters_need_elected_estimate.** The two relay-side filters, exactly: `filters.HasGasEstimate` (a
+conjunct of `GetMessagesForRelaying`) lets a message through iff estimation is NOT required for it or its
+estimate is non-zero; the skyway `OutgoingTxBatches` query lists a batch iff its estimate is non-zero; and for
+a non-zero estimate the signed value IS the stored value.  Whether estimation is required is the flag the
+message was enqueued with — not decided here, see `offered_message_is_elected`. -/
+theorem relay_filters_need_elected_estimate :
+    (∀ req est, hasGasEstimate req est = true ↔ (req = false ∨ est ≠ 0)) ∧
     (∀ est, batchOffered est = true ↔ est ≠ 0) ∧
-    (∀ est, est ≠ 0 → effEstimate est = est) ∧
-    (∀ est, hasGasEstimate false est = true) := by
-  refine ⟨?_, ?_, ?_, ?_⟩
-  · intro est
-    simp only [hasGasEstimate, Bool.not_true, Bool.false_eq_true, ↓reduceIte, decide_eq_true_eq]
-    omega
+    (∀ est, est ≠ 0 → effEstimate est = est) := by
+  refine ⟨?_, ?_, ?_⟩
+  · intro req est
+    cases req
+    · simp [hasGasEstimate]
+    · simp only [hasGasEstimate, Bool.not_true, Bool.false_eq_true, ↓reduceIte, decide_eq_true_eq, false_or,
+        reduceCtorEq]
+      omega
   · intro est
     simp only [batchOffered, Bool.not_eq_eq_eq_not, Bool.not_true, decide_eq_false_iff_not]
     omega
   · intro est h
     simp [effEstimate, h]
-  · intro est
-    simp [hasGasEstimate]
+
+/-! ### the estimate default: what is signed BEFORE an estimate is elected (FINDING)
+
+`Keccak256WithSignedMessage` / `GetCheckpoint` substitute 300000 for an estimate of 0, and nothing stops
+validators from signing an item whose estimate is not elected yet (`GetMessagesForSigning` has no
+`HasGasEstimate` filter, `AddMessageSignature` / `ConfirmBatch` no such check; queue model:
+`Queue.unelected_message_is_signable`, `Queue.signatures_before_election_sign_the_defaults`).  Hence the
+property's clause "the signing bytes depend on … the elected gas estimate; changing it changes the signing
+bytes; collected signatures can never authorise a different … fee" is FALSE for items that are signable but
+not yet elected: their signatures are valid, under every hash, for the same call with `gas_estimate = 300000`,
+a value nobody elected. -/
+
+/-- **estimate_default_go_collision.** At the Go entry point, for EVERY `UpdateValset` / `CompassHandover`
+message: with estimate 0 (nothing elected) and with estimate 300000 `Keccak256WithSignedMessage` hashes
+literally the same byte string — equal signing bytes under every hash, no collision involved — while the
+calls handed to the remote contract differ (`gas_estimate` 0 vs 300000). -/
+theorem estimate_default_go_collision (H : Hash) (m : GoMsg) (c : Bytes)
+    (hk : m.action.kind = .uv ∨ m.action.kind = .ch) :
+    goSignBytes H { m with estimate := 0 } = goSignBytes H { m with estimate := 300000 } ∧
+    goItemPreimage H (.msg { m with estimate := 0 } c) = goItemPreimage H (.msg { m with estimate := 300000 } c) ∧
+    goItemDelivered (.msg { m with estimate := 0 } c) ≠ goItemDelivered (.msg { m with estimate := 300000 } c) := by
+  obtain ⟨ts, rel, id, est, act⟩ := m
+  cases act with
+  | updateValset vs =>
+    refine ⟨rfl, rfl, ?_⟩
+    simp [goItemDelivered, UV.deliveredVals, uvFields]
+  | compassHandover cs d =>
+    refine ⟨rfl, rfl, ?_⟩
+    simp [goItemDelivered, CH.deliveredVals, chFields]
+  | submitLogicCall _ _ _ _ _ => simp [GoAction.kind] at hk
+  | uploadSmartContract _ => simp [GoAction.kind] at hk
+  | uploadUserSmartContract _ _ _ _ _ => simp [GoAction.kind] at hk
+
+/-- the same for skyway batches: `GetCheckpoint` of a batch without estimate is the checkpoint of the batch
+with estimate 300000; for a batch `ToInternal` accepts the delivered `submit_batch` arguments differ -/
+theorem estimate_default_batch_collision (H : Hash) (ts : Bytes) (b : GoBatch) :
+    goBatchCheckpoint H ts { b with estimate := 0 } = goBatchCheckpoint H ts { b with estimate := 300000 } ∧
+    (batchValid b = true →
+      goItemDelivered (.batch ts { b with estimate := 0 }) ≠ goItemDelivered (.batch ts { b with estimate := 300000 })) := by
+  refine ⟨rfl, ?_⟩
+  intro hv
+  have h0 : batchValid { b with estimate := 0 } = true := hv
+  have h3 : batchValid { b with estimate := 300000 } = true := hv
+  simp [goItemDelivered, h0, h3, Batch.deliveredVals, batchFields]
+
+/-- `exUVItem` before its estimate is elected, and the same message with the default as "elected" value -/
+def exUVUnelected : GoItem :=
+  .msg ⟨[99, 111, 109, 112, 97, 115, 115], [49], 7, 0, .updateValset ⟨[[50]], [5], 3⟩⟩ []
+def exUVDefault : GoItem :=
+  .msg ⟨[99, 111, 109, 112, 97, 115, 115], [49], 7, 300000, .updateValset ⟨[[50]], [5], 3⟩⟩ []
+
+/-- **elected_estimate_clause_false_before_election.**  FULL-STRENGTH CLAUSE (no "estimate is elected"
+proviso) — "items with the same signing bytes are handed to the remote contract with the same arguments" — is
+FALSE, in the model and in /repo: the well-formed, signable `UpdateValset` item `exUVUnelected` (estimate 0)
+and `exUVDefault` (estimate 300000) hash the very same byte string, so every `NoColl` hypothesis holds
+trivially, yet `update_valset` is delivered with `gas_estimate` 0 resp. 300000.  Reproduced on the real
+implementation by `TestC05` (the golden pair `u.est = 0` / `u.est = 300_000`: equal digests from the real
+`Keccak256WithSignedMessage`).  The true statement is `go_digest_binds_delivered_partial` (hypothesis
+`itemElected`), discharged for everything /repo offers to relayers by `offered_message_is_elected`. -/
+theorem elected_estimate_clause_false_before_election :
+    ¬ (∀ (H : Hash) (a b : GoItem) (d : Nat), goItemWf a = true → goItemWf b = true →
+        upSafe a = true → upSafe b = true → a.kind ≠ .up →
+        goItemDigest H a = some d → goItemDigest H b = some d →
+        (∀ p q, goItemPreimage H a = some p → goItemPreimage H b = some q → NoColl H p q) →
+        (∀ p q, goCheckpointPre a = some p → goCheckpointPre b = some q → NoColl H p q) →
+        goItemDelivered a = goItemDelivered b) := by
+  intro hall
+  have hpre : ∀ H, goItemPreimage H exUVUnelected = goItemPreimage H exUVDefault := fun _ => rfl
+  have hcp : goCheckpointPre exUVUnelected = goCheckpointPre exUVDefault := rfl
+  obtain ⟨f, -, hpf, -⟩ := view_uv exUVUnelected rfl
+  have hpf' : goItemPreimage (fun _ => 0) exUVDefault = some (UV.preimage (fun _ => 0) f) := by
+    rw [← hpre]; exact hpf _
+  have := hall (fun _ => 0) exUVUnelected exUVDefault _ (by decide) (by decide) (by decide) (by decide) (by decide)
+    (goItemDigest_eq_some.2 ⟨_, hpf _, rfl⟩) (goItemDigest_eq_some.2 ⟨_, hpf', rfl⟩)
+    (fun p q hp hq _ => by
+      rw [hpre] at hp
+      exact Option.some.inj (hp.symm.trans hq))
+    (fun p q hp hq _ => by
+      rw [hcp] at hp
+      exact Option.some.inj (hp.symm.trans hq))
+  simp [goItemDelivered, exUVUnelected, exUVDefault, UV.deliveredVals, uvFields] at this
+
+/-! ### what /repo offers to relayers carries an elected estimate (link to the queue model, C14)
+
+`Model/Queue.lean` is the executable model of the consensus queue (enqueue through the relayer pick, estimate
+submission, end-block election, `GetMessagesForRelaying` with all its filters); `Props/C14.lean` proves over
+all histories that a message offered for relay requires estimation and has a non-zero elected estimate
+whenever every message entered through a producer of /repo (relayer pick + `RequireGasEstimation: true`).
+`Represents` says which Go-level item a queue-model item stands for. -/
+
+/-- action kinds of the queue model vs. the schemes here (`other` of the queue model is `CompassHandover`;
+compass deployments, `UploadSmartContract`, are not in the queue model) -/
+def kindAgrees : Paloma.Queue.Kind → Kind → Prop
+  | .valset, .uv => True
+  | .slc, .slc => True
+  | .uusc, .usc => True
+  | .other, .ch => True
+  | _, _ => False
+
+/-- the Go-level message `g` is what the queue-model item `it` stands for: same queue id, the wrapper's
+`GasEstimate` (which `Keccak256WithSignedMessage` reads) is the model's `elected`, kinds correspond -/
+def Represents (it : Paloma.Queue.Item) (g : GoItem) : Prop :=
+  ∃ m c, g = .msg m c ∧ m.id = it.id ∧ m.estimate = it.elected ∧ kindAgrees it.kind m.action.kind
+
+/-- **offered_message_is_elected** (discharges `itemElected` from the queue model instead of assuming it).
+After ANY history of the consensus queue in which every message entered through a request-level `enqueue`
+(what every producer of /repo does), a message contained in ANY answer of the relay query requires
+estimation and has a non-zero elected estimate — so the real filter `hasGasEstimate` lets it through for the
+right reason — and every Go-level item it stands for satisfies `itemElected` and is not a compass deployment. -/
+theorem offered_message_is_elected (ops : List Paloma.Queue.Op)
+    (hnoput : ∀ o ∈ ops, ∀ k c sd a r q, o ≠ Paloma.Queue.Op.put k c sd a r q)
+    (v : Nat) (it : Paloma.Queue.Item) (hit : it ∈ (Paloma.Queue.run ops).queue)
+    (hoff : it.id ∈ Paloma.Queue.offeredPage (Paloma.Queue.run ops).queue v)
+    (g : GoItem) (hr : Represents it g) :
+    it.reqEst = true ∧ it.elected ≠ 0 ∧ hasGasEstimate it.reqEst it.elected = true ∧
+      itemElected g = true ∧ g.kind ≠ .up := by
+  have hoff' := (Paloma.Queue.relay_answer_sound _ v).1 _ hoff
+  obtain ⟨hreq, hel⟩ := Paloma.Queue.offered_requires_elected_no_put ops hnoput v it hit hoff'
+  obtain ⟨m, c, rfl, _, hest, hkind⟩ := hr
+  refine ⟨hreq, hel, ?_, ?_, ?_⟩
+  · rw [hreq]
+    simp only [hasGasEstimate, Bool.not_true, Bool.false_eq_true, ↓reduceIte, decide_eq_true_eq]
+    omega
+  · obtain ⟨ts, rel, id, est, act⟩ := m
+    simp only at hest
+    cases act <;> simp [itemElected, hest, hel]
+  · obtain ⟨ts, rel, id, est, act⟩ := m
+    cases hk : it.kind <;> cases act <;> simp [hk, kindAgrees, GoAction.kind, GoItem.kind] at hkind ⊢
+
+/-- **relayed_messages_digest_binds_delivered** (the property's main clause for what is actually relayed, no
+`itemElected` hypothesis left).  Take two messages offered for relay after any two queue histories (the
+queues of two chains, or one queue at two times) built from request-level `enqueue`s, and Go-level items `a`,
+`b` they stand for.  If `a` and `b` have the same signing bytes, they are delivered as the same compass call
+with the same arguments.  Remaining hypotheses: Go ranges (`goItemWf`), keccak (`NoColl` AT the hashed
+strings), and nothing else — `upSafe` holds because neither is a compass deployment. -/
+theorem relayed_messages_digest_binds_delivered (H : Hash)
+    (ops1 ops2 : List Paloma.Queue.Op)
+    (hnp1 : ∀ o ∈ ops1, ∀ k c sd a r q, o ≠ Paloma.Queue.Op.put k c sd a r q)
+    (hnp2 : ∀ o ∈ ops2, ∀ k c sd a r q, o ≠ Paloma.Queue.Op.put k c sd a r q)
+    (v1 v2 : Nat) (it1 it2 : Paloma.Queue.Item)
+    (hit1 : it1 ∈ (Paloma.Queue.run ops1).queue) (hit2 : it2 ∈ (Paloma.Queue.run ops2).queue)
+    (hoff1 : it1.id ∈ Paloma.Queue.offeredPage (Paloma.Queue.run ops1).queue v1)
+    (hoff2 : it2.id ∈ Paloma.Queue.offeredPage (Paloma.Queue.run ops2).queue v2)
+    (a b : GoItem) (hra : Represents it1 a) (hrb : Represents it2 b) (d : Nat)
+    (hwa : goItemWf a = true) (hwb : goItemWf b = true)
+    (ha : goItemDigest H a = some d) (hb : goItemDigest H b = some d)
+    (hout : ∀ p q, goItemPreimage H a = some p → goItemPreimage H b = some q → NoColl H p q)
+    (hin : ∀ p q, goCheckpointPre a = some p → goCheckpointPre b = some q → NoColl H p q) :
+    goItemDelivered a = goItemDelivered b ∧ goItemDelivered a ≠ none := by
+  obtain ⟨_, _, _, hea, hka⟩ := offered_message_is_elected ops1 hnp1 v1 it1 hit1 hoff1 a hra
+  obtain ⟨_, _, _, heb, hkb⟩ := offered_message_is_elected ops2 hnp2 v2 it2 hit2 hoff2 b hrb
+  have upSafe_of : ∀ g : GoItem, g.kind ≠ .up → upSafe g = true := by
+    intro g hg
+    cases g with
+    | batch _ _ => rfl
+    | msg m c =>
+      obtain ⟨ts, rel, id, est, act⟩ := m
+      cases act <;> simp [upSafe, GoItem.kind, GoAction.kind] at hg ⊢
+  exact go_digest_binds_delivered_partial H a b d hwa hwb (upSafe_of a hka) (upSafe_of b hkb) ha hb hout hin hea heb hka
+
+/-- **put_path_offers_unelected_valset** (SCOPE of the two theorems above: they need the request-level entry
+point).  The keeper-level `PutMessageInQueue` with `RequireGasEstimation: false` stores a validator-set update
+that is offered to its assignee at once with `elected = 0`: a Go item standing for it is NOT `itemElected`, its
+signatures are over 300000 and `VerifyAgainstTX` expects 0.  No producer in /repo enqueues an update that way
+(`PublishValsetToChain` passes `RequireGasEstimation: true`). -/
+theorem put_path_offers_unelected_valset :
+    Paloma.Queue.offeredPage (Paloma.Queue.run [.put .valset 3 0 2 8 false]).queue 2 = [1] ∧
+    ((Paloma.Queue.run [.put .valset 3 0 2 8 false]).queue.map fun it => (it.id, it.reqEst, it.elected, (Paloma.Queue.bytesOf it).gas)) =
+      [(1, false, 0, 300000)] ∧
+    itemElected exUVUnelected = false := by decide
 
 /-! ### message ids -/
 
@@ -2096,6 +2439,81 @@ theorem stored_id_provenance (ops : List IdOp) (q id : Nat) (h : (q, id) ∈ (id
   · simp at h1
   · exact h1
 
+/-! ### ids and signing bytes together: the message that is hashed carries the id `Put` returned
+
+`jqStep` (Model/SignBytes.lean) is `idStep` plus what `Queue.Put` / `Remove` do to the stored message: a fresh
+`Put` stores the message with `Id :=` the id it returns and no estimate, a `Put` with `MsgIDToReplace` swaps the
+message under the same id (estimate kept), `Remove` deletes it.  The `id` field of a stored `GoMsg` is therefore
+a function of the history — not a free field. -/
+
+/-- **joint_model_is_the_id_model.** The id part of the joint model is the id model run on the same history
+(so every id theorem above applies to it), and the keys (queue, `msg.id`) of the stored messages are exactly
+the live ids, in the same order. -/
+theorem joint_model_is_the_id_model (ops : List JqOp) :
+    (jqRun {} ops).ids = idRun {} (ops.map JqOp.toId) ∧
+    (jqRun {} ops).msgs.map (fun p => (p.1, p.2.id)) = (idRun {} (ops.map JqOp.toId)).live := by
+  have h1 := jqRun_ids ops {}
+  have h2 : JqKeys (jqRun {} ops) := jqRun_keys ops {} rfl
+  unfold JqKeys at h2
+  exact ⟨h1, by rw [h2, h1]⟩
+
+/-- every result the joint model returns is the result of the id model (`ok id`, `notFound`, `zeroId`) -/
+theorem joint_model_returns_id_model_results (pre : List JqOp) (op : JqOp) :
+    (jqStep (jqRun {} pre) op).2 = (idStep (idRun {} (pre.map JqOp.toId)) op.toId).2 := by
+  rw [(jqStep_ids _ op).2, (joint_model_is_the_id_model pre).1]
+
+/-- **stored_message_id_is_a_returned_id.** The `id` field of every stored message — the value
+`Keccak256WithSignedMessage` reads through `q.GetId()` — is the id a fresh `Put` ON THAT QUEUE returned at
+some point of the history. -/
+theorem stored_message_id_is_a_returned_id (ops : List JqOp) (q : Nat) (m : GoMsg)
+    (h : (q, m) ∈ (jqRun {} ops).msgs) :
+    ∃ pre post m0, ops = pre ++ JqOp.put q m0 0 :: post ∧ (jqStep (jqRun {} pre) (.put q m0 0)).2 = .ok m.id := by
+  have hl : (q, m.id) ∈ (idRun {} (ops.map JqOp.toId)).live := by
+    rw [← (joint_model_is_the_id_model ops).2]
+    exact List.mem_map.2 ⟨(q, m), h, rfl⟩
+  obtain ⟨pre, post, he, hok⟩ := stored_id_provenance _ q m.id hl
+  obtain ⟨pre', rest, hops, hpre, hrest⟩ := List.map_eq_append_iff.1 he
+  obtain ⟨op, post', hrest', hop, _⟩ := List.map_eq_cons_iff.1 hrest
+  subst hops hrest'
+  cases op with
+  | remove _ _ => simp [JqOp.toId] at hop
+  | put q' m0 r =>
+    simp only [JqOp.toId, IdOp.put.injEq] at hop
+    obtain ⟨rfl, rfl⟩ := hop
+    refine ⟨pre', post', m0, rfl, ?_⟩
+    rw [joint_model_returns_id_model_results, hpre]
+    exact hok
+
+/-- **queued_messages_have_distinct_ids.** After any history (fewer than 2^64 operations), the messages
+stored in all queues of all chains carry pairwise different ids. -/
+theorem queued_messages_have_distinct_ids (ops : List JqOp) (h : ops.length < U64) :
+    ((jqRun {} ops).msgs.map (·.2.id)).Nodup := by
+  have hn := (ids_unique_across_queues (ops.map JqOp.toId) (by simpa using h)).1
+  rw [← (joint_model_is_the_id_model ops).2, List.map_map] at hn
+  exact hn
+
+/-- **queued_messages_never_share_signing_bytes** (C05: "message ids are unique", tied to the bytes).  After any
+history of `Put` / replace / `Remove` over any queues of any chains (fewer than 2^64 operations), two
+DIFFERENT stored messages (different positions of the store) of the kinds whose scheme contains the message id
+— `logic_call`, `deploy_contract`, compass deployment — never have the same signing bytes.
+Hypotheses: Go ranges, `upSafe`, and keccak collision-freeness AT the two hashed strings (external ASSUMPTION).
+For `UpdateValset` / `CompassHandover` the statement is false: their schemes contain no message id
+(`Queue` example "two queued updates … share signing bytes", harness stat `observed:uv-scheme-has-no-id`). -/
+theorem queued_messages_never_share_signing_bytes (H : Hash) (ops : List JqOp) (h : ops.length < U64)
+    (i j : Nat) (hij : i ≠ j) (p1 p2 : Nat × GoMsg)
+    (h1 : (jqRun {} ops).msgs[i]? = some p1) (h2 : (jqRun {} ops).msgs[j]? = some p2) (c1 c2 : Bytes)
+    (hw1 : goItemWf (.msg p1.2 c1) = true) (hw2 : goItemWf (.msg p2.2 c2) = true)
+    (hs1 : upSafe (.msg p1.2 c1) = true) (hs2 : upSafe (.msg p2.2 c2) = true)
+    (hkind : p1.2.action.kind = .slc ∨ p1.2.action.kind = .usc ∨ p1.2.action.kind = .up)
+    (hout : ∀ p q, goItemPreimage H (.msg p1.2 c1) = some p → goItemPreimage H (.msg p2.2 c2) = some q → NoColl H p q)
+    (d : Nat) (hd1 : goSignBytes H p1.2 = .hash d) : goSignBytes H p2.2 ≠ .hash d := by
+  intro hd2
+  have ha := ((goSignBytes_eq_itemDigest H p1.2 c1).1 d).1 hd1
+  have hb := ((goSignBytes_eq_itemDigest H p2.2 c2).1 d).1 hd2
+  have hid := go_digest_binds_message_id H p1.2 p2.2 c1 c2 d hw1 hw2 hs1 hs2 ha hb hout hkind
+  exact hij (nodup_map_getElem?_inj (fun p : Nat × GoMsg => p.2.id) _ (queued_messages_have_distinct_ids ops h)
+    i j p1 p2 h1 h2 hid)
+
 /-- **remove_spec.** `Remove`, both branches: `ok id` iff the message is stored in THAT queue, and
 then exactly that entry disappears; otherwise `notFound` and nothing changes.  The counter and the
 log are never touched: a removed id is not handed out again (`later_fresh_id_larger`). -/
@@ -2191,7 +2609,7 @@ def exSLCItemB : GoItem :=
 -- the Go values differ, the delivered calls coincide
 example : goItemWf exSLCItemA = true ∧ goItemWf exSLCItemB = true ∧
     upSafe exSLCItemA = true ∧ upSafe exSLCItemB = true ∧
-    itemOffered exSLCItemA = true ∧ itemOffered exSLCItemB = true ∧
+    itemElected exSLCItemA = true ∧ itemElected exSLCItemB = true ∧
     exSLCItemA.kind = .slc ∧
     goItemPreimage exH exSLCItemA = goItemPreimage exH exSLCItemB ∧
     (goItemPreimage exH exSLCItemA).isSome = true := by decide
@@ -2200,7 +2618,7 @@ example : goItemWf exSLCItemA = true ∧ goItemWf exSLCItemB = true ∧
 def exBatchItem : GoItem :=
   .batch [99] ⟨List.replicate 40 48, [List.replicate 40 49, List.replicate 40 50],
     [List.replicate 40 48, List.replicate 40 48], [5, 0], 9, 2 ^ 63 + 1, [0x55], 21000⟩
-example : goItemWf exBatchItem = true ∧ itemOffered exBatchItem = true ∧ upSafe exBatchItem = true ∧
+example : goItemWf exBatchItem = true ∧ itemElected exBatchItem = true ∧ upSafe exBatchItem = true ∧
     (goItemDigest exH exBatchItem).isSome = true ∧ (goItemDelivered exBatchItem).isSome = true := by decide
 -- the error branch: one negative amount
 example : goBatchCheckpoint exH [99] ⟨List.replicate 40 48, [List.replicate 40 49], [List.replicate 40 48],
@@ -2208,9 +2626,9 @@ example : goBatchCheckpoint exH [99] ⟨List.replicate 40 48, [List.replicate 40
 -- the panic branch: a 33-byte sender
 example : goSignBytes exH ⟨[], [], 1, 0, .submitLogicCall [] [] none (List.replicate 33 1) 0⟩ = .panic := by
   decide
--- an `UpdateValset` without elected estimate is signable but not offered to relayers
-example : itemOffered (.msg ⟨[], [], 1, 0, .updateValset ⟨[], [], 1⟩⟩ []) = false ∧
-    itemOffered exUVItem = true := by decide
+-- an `UpdateValset` without elected estimate is signable (`goItemDigest` is `some`) but not `itemElected`
+example : itemElected (.msg ⟨[], [], 1, 0, .updateValset ⟨[], [], 1⟩⟩ []) = false ∧
+    itemElected exUVItem = true := by decide
 
 /-- THE FORGERY (witness of `cross_action_clause_false_for_up`): the `UploadSmartContract` message
 whose "bytecode" is the first 92 bytes of the `update_valset` pre-image of `exUVItem` and whose
@@ -2243,5 +2661,46 @@ example : idTrace {} exOps =
     [.ok 1, .ok 2, .ok 1, .ok 1, .ok 3, .notFound, .notFound, .ok 4] := by decide
 example : freshIds {} exOps = [1, 2, 3, 4] ∧ (idRun {} exOps).issued = [4, 3, 2, 1] ∧
     (idRun {} exOps).counter = 4 ∧ (idRun {} exOps).live = [(1, 4), (3, 3), (2, 2)] := by decide
+
+/-! ### non-vacuity: ids and messages together, and the link to the queue model -/
+
+def exMsg (payload : Bytes) : GoMsg :=
+  ⟨[99, 111, 109, 112, 97, 115, 115], [49], 999, 77, .submitLogicCall [49] payload none (List.replicate 20 7) 5⟩
+
+/-- three queues: put, put, replace message 1 in place, remove 2, put — through `jqRun` from the initial state -/
+def exJq : List JqOp :=
+  [.put 1 (exMsg [1]) 0, .put 2 (exMsg [2]) 0, .put 1 (exMsg [3]) 1, .remove 2 2, .put 3 (exMsg [4]) 0, .put 2 (exMsg [5]) 1]
+
+def exPayload (m : GoMsg) : Bytes :=
+  match m.action with
+  | .submitLogicCall _ p _ _ _ => p
+  | _ => []
+
+-- the caller's id / estimate (999 / 77) are ignored: the stored message carries the RETURNED id and no estimate;
+-- the replace keeps id 1 and swaps the payload; the wrong-queue replace of id 1 is refused; id 2 is not reused
+example : ((jqRun {} exJq).msgs.map fun p => (p.1, p.2.id, p.2.estimate, exPayload p.2)) = [(3, 3, 0, [4]), (1, 1, 0, [3])] ∧
+    (jqRun {} exJq).ids.live = [(3, 3), (1, 1)] ∧
+    (jqStep (jqRun {} (exJq.take 5)) (.put 2 (exMsg [5]) 1)).2 = .notFound := by decide
+
+-- the two stored messages are well-formed `upSafe` logic calls; the byte strings hashed for them differ
+example : ((jqRun {} exJq).msgs.map fun p => (goItemWf (.msg p.2 []), upSafe (.msg p.2 []), p.2.action.kind)) =
+      [(true, true, .slc), (true, true, .slc)] ∧
+    ((jqRun {} exJq).msgs.map fun p => (goPreimage exH p.2).isSome) = [true, true] ∧
+    (jqGet (jqRun {} exJq) 3 3).bind (goPreimage exH) ≠ (jqGet (jqRun {} exJq) 1 1).bind (goPreimage exH) := by decide
+
+-- `offered_message_is_elected` is not vacuous: after `Queue.demoValsetHist` (enqueue-only) the validator-set update 1 is
+-- in the relay answer of its assignee with elected estimate 50000, and the Go item below stands for it
+example : (1 : Nat) ∈ Paloma.Queue.offeredPage (Paloma.Queue.run Paloma.Queue.demoValsetHist).queue 1 ∧
+    ((Paloma.Queue.run Paloma.Queue.demoValsetHist).queue.map fun it => (it.id, it.kind, it.reqEst, it.elected)) =
+      [(1, .valset, true, 50000), (2, .other, true, 0)] := by decide
+example (it : Paloma.Queue.Item) (h1 : it.id = 1) (h2 : it.elected = 50000) (h3 : it.kind = .valset) :
+    Represents it (.msg ⟨[99, 111, 109, 112, 97, 115, 115], [49], 1, 50000, .updateValset ⟨[[50]], [5], 3⟩⟩ []) :=
+  ⟨_, _, rfl, h1.symm, h2.symm, by rw [h3]; trivial⟩
+
+-- the refuted clause's witness pair: both well-formed and `upSafe`, not a compass deployment, one not elected
+example : goItemWf exUVUnelected = true ∧ goItemWf exUVDefault = true ∧ upSafe exUVUnelected = true ∧
+    exUVUnelected.kind = .uv ∧ itemElected exUVUnelected = false ∧ itemElected exUVDefault = true ∧
+    goItemPreimage exH exUVUnelected = goItemPreimage exH exUVDefault ∧
+    (goItemPreimage exH exUVUnelected).isSome = true := by decide
 
 end Paloma.SignBytes
